@@ -98,6 +98,20 @@ def c_eval(t):
     return r
 
 
+def eager_shift(t):
+    """does an EAGER evaluation meet a shift whose count is outside 0..31 somewhere?"""
+    if t[0] == 'num':
+        return False
+    if any(eager_shift(y) for y in t[1:] if isinstance(y, tuple)):
+        return True
+    if t[0] == 'bin' and t[1] in ('<<', '>>'):
+        try:
+            return not (0 <= c_eval(t[3]) < 32)
+        except Exception:
+            return True
+    return False
+
+
 def eager_divzero(t):
     """does an EAGER evaluation (both arms of ?:, && and || evaluated) divide by zero somewhere?"""
     if t[0] == 'num':
@@ -246,14 +260,15 @@ def run(ctx):
             v = [x for x in r['vars'] if x['name'] == 'v'][0]['def']
             impl = ('ok', v[1]) if v and isinstance(v[1], int) else ('other', v)
         elif r['status'] == 'err':
-            impl = ('divzero',) if 'Division by zero' in r['err'].get('msg', '') else ('err', r['err'].get('msg'))
+            msg = r['err'].get('msg', '')
+            impl = ('divzero',) if 'Division by zero' in msg else (('shift',) if 'Shift count out of range' in msg else ('err', msg))
         else:
             impl = (r['status'], r.get('msg'))
         outcome[impl[0]] = outcome.get(impl[0], 0) + 1
         m = model.get(eid)
-        if impl != m and impl[0] in ('ok', 'divzero'):
+        if impl != m and impl[0] in ('ok', 'divzero', 'shift'):
             cm.append({'expr': text, 'tokens': toks, 'impl': impl, 'model': m})
-        elif impl[0] not in ('ok', 'divzero') and m and m[0] == 'ok':
+        elif impl[0] not in ('ok', 'divzero', 'shift') and m and m[0] == 'ok':
             cm.append({'expr': text, 'tokens': toks, 'impl': impl, 'model': m})
         if t is None:
             continue
@@ -262,6 +277,10 @@ def run(ctx):
         except ZeroDivisionError:
             want = ('divzero',)
         except Undefined:
+            continue
+        if impl == ('shift',) and eager_shift(t):
+            # same for a shift count out of range in an arm C would not evaluate: rejected, not mis-evaluated
+            outcome['rejected_unevaluated_shift'] = outcome.get('rejected_unevaluated_shift', 0) + 1
             continue
         if impl == ('divzero',) and want != ('divzero',) and eager_divzero(t):
             # the calculator evaluates both arms of ?: / && / ||: a division by zero in an arm C would
